@@ -135,3 +135,27 @@ reg("C08", "E1 subset sweep + builder runs",
     "builder runs. Every emitted string is re-parsed and regex-matched.",
     "Trusted: the pinned copies of FIRST's JSON schemas (data/schemas), Python's re.",
     "DESIGN.md section 3, C08")
+
+reg("C10", "E1 product sweep + real validator",
+    "explicit-state enumeration of accepted vectors x {sort} x {minimal}; every distinct JSON "
+    "factor validated by the real jsonschema validator against the pinned FIRST schemas "
+    "(factorised validity, cross-checked on complete instances)",
+    "0.9M (quick) / ~25M (thorough) vectors of all versions plus re-spelled inputs, four option "
+    "pairs each, JSON round trip; validity factorises over top-level properties (+ the three "
+    "coupled score/severity pairs of the v4.0 schema) - the keyword whitelist is asserted on the "
+    "pinned schemas at start-up and the factorised verdict is compared with the real validator's on "
+    "complete instances of every distinct key set. Two recorded findings (F2d, F2e) are matched by "
+    "factor-level signatures; any other failing factor is a violation.",
+    "Trusted: pinned copies of FIRST's schemas, jsonschema 4.26 (tooling interpreter), Decimal "
+    "parsing of instance and schema.", "DESIGN.md section 3, C10")
+
+reg("C11", "E1 product sweep",
+    "explicit-state enumeration of accepted vectors x {sort} x {minimal}; oracle = the model's own "
+    "parse + JSON names tables + the object's own accessors",
+    "Same spaces as C10. Per instance: version, vectorString == input, score/severity fields, "
+    "every metric field against the effective value (stated / inherited base value / NOT_DEFINED); "
+    "sort=True equals sort=False with ascending keys; minimal=True is a sub-mapping lacking only "
+    "whole undefined temporal/environmental groups. Where library and FIRST v4.0 schema spell a "
+    "key or value differently both are admitted (disjoint per value).",
+    "Trusted: names tables typed in from FIRST's schemas (vf/ref/names.py), the model's parse.",
+    "DESIGN.md section 3, C11")
